@@ -38,7 +38,7 @@ class Universe:
         self.pids = pids or ["p", "pq", "P", "q", "p/../x"]
         cb = content_bytes if content_bytes is not None else [b"", b"a", b"hello world", b"x" * 8192, b"y" * 20000]
         self.toks = [contents.add(b) for b in cb]
-        self.formats = formats if formats is not None else [None, ns, "f1", "f2", "", "a b"]
+        self.formats = formats if formats is not None else [None, ns, "f1", "f2", "", "a b", " f1", "f2\n"]
         never = contents.add(b"never stored content")
         self.never_cid = contents.digest(never, self.alg)
         self.junk_cid = "a" * len(self.never_cid)
